@@ -128,8 +128,118 @@ def r1_placeholders_patched(ctx):
         ctx.check(ok, R, b.key + "|addr-before-push", "addr = instructions.len() is read before the placeholder is pushed", "placeholder address no longer read before the push", b.loc(0))
 
 
+def r2_branch_reset(ctx):
+    R = "R-C02-2"
+    ctx.rule(R, "Reset on branch exit: in compile_scoped_expression every path through one iteration of the branch loop — from the successful "
+                "compilation of the branch condition back to the loop head — passes the `local_count > param_local + 1` test that emits "
+                "Instruction::Reset (both for branches with and without a consequence); the only exempt path is the statically-nil condition "
+                "`continue`. A failed condition may already have stored locals, so a branch that skips the Reset shifts the slots of later branches")
+    F = ctx.facts
+    from qvlib.paths import agg_sites, discr_switches, result_switch_edges
+    b = F.body("quiver_compiler::compiler::Compiler::compile_scoped_expression")
+    fl = Flow(b)
+    fln = Flow(b, through_named=True)
+    resets = [bi for bi, si, s in agg_sites(b, "bytecode::Instruction", "Reset")]
+    ctx.floor(R, "Reset emission sites in compile_scoped_expression", len(resets), 1)
+    cs = [(bi, t) for bi, t in b.calls_to("Compiler::compile_sequence")]
+    nexts = [bi for bi, t in b.calls() if call_matches(t, ("Iterator::next",))]
+    cond = None
+    for bi, t in cs:
+        heads = [n for n in nexts if b.dominates(n, bi) and b.reaches(bi, n)]
+        if heads:
+            cond = (bi, t, heads)
+            break
+    if cond is None:
+        raise CheckError("%s: the branch-condition compile_sequence call inside the branch loop was not found" % R)
+    cbi, ct, heads = cond
+    head = max(heads, key=lambda n: len(b.dominators()[n]))   # innermost enclosing loop head
+    # guards: Gt comparisons reading self.local_count whose true outcome reaches a Reset emission without passing the loop head
+    guards = []
+    for bi, si, s in b.stmts():
+        if s["k"] == "assign" and s["rv"]["k"] == "bin" and s["rv"]["op"] in ("Gt", "Lt", "Ge", "Le"):
+            reads = set()
+            for o in (s["rv"]["l"], s["rv"]["r"]):
+                p = op_place(o)
+                if p:
+                    reads |= {f for _o, f in fln.slice_reads(p["l"])[0]}
+            if "local_count" in reads:
+                tv = 1 if s["rv"]["op"] in ("Gt", "Ge") else 0
+                if any(explore(b, [bi], want="target", targets=[r], avoid=[head], force={(bi, si): tv}) for r in resets):
+                    guards.append(bi)
+    ctx.note("R-C02-2: %d Reset sites, %d guards" % (len(resets), len(guards)))
+    # start: the Continue edge of the `?` on the condition compile
+    fw = fl.forward({ct["dest"]["l"]})
+    br = [bi for bi, t in b.calls() if call_matches(t, ("Try::branch",)) and (op_place(t["args"][0]) or {}).get("l") in fw]
+    starts = []
+    for x in br:
+        for sw in discr_switches(b, b.blocks[x]["term"]["dest"]["l"]):
+            starts.append(sw[1].get(0, sw[2]))
+    if not starts:
+        raise CheckError("%s: success edge of the condition compile not found" % R)
+    # exempt: the statically-nil `continue` (true outcome of the first is_nil(condition_type) test after the compile)
+    exempt = []
+    isn = [(bi, t) for bi, t in b.calls_to("Compiler::is_nil") if b.dominates(cbi, bi)]
+    if isn:
+        first = min(isn, key=lambda x: len(b.dominators()[x[0]]))
+        te, _d = result_switch_edges(b, fl, first[1]["dest"]["l"], truthy=True)
+        exempt = te
+    bad = None
+    for s0 in starts:
+        bad = bad or explore(b, [s0], avoid=set(guards) | set(resets), want="target", targets=[head], exempt_edges=exempt,
+                             stop=err_blocks(b) | diverging_blocks(b), track=set())
+    ctx.check(bad is None, R, b.key + "|reset-per-branch", "every compiled branch passes a local_count test that emits Reset before the next branch starts",
+              "a branch can finish (or fall through to the next branch) without the Reset that clears the locals its condition stored: %s" % path_desc(b, bad), b.loc(cbi))
+
+
+def r3_lift_only_sole_term(ctx):
+    R = "R-C02-3"
+    ctx.rule(R, "block lifting keeps nil short-circuit local: simplify::strip_sequence splices a block's chains into the enclosing sequence only "
+                "when the block is the SOLE term of its chain (terms.len() == 1) — lifting a leading block of a longer chain would let a nil step "
+                "inside the block abort the whole enclosing sequence instead of flowing on as the block's value")
+    F = ctx.facts
+    b = F.body("quiver_compiler::simplify::strip_sequence")
+    fl = Flow(b)
+    fln = Flow(b, through_named=True)
+    chains = [l["i"] for l in b.locals if l.get("name") == "chains"]
+    ext = [bi for bi, t in b.calls() if ((t.get("callee") or "").endswith("Extend::extend") or (t.get("callee") or "").endswith("Vec::extend")) and fl.canon_op(t["args"][0]) and fl.canon_op(t["args"][0])[0] in chains]
+    ctx.floor(R, "lift splice sites in strip_sequence", len(ext), 1)
+    # length tests on chain.terms dominating the splice
+    tests = []
+
+    def const_of(o):
+        if o.get("val") is not None:
+            return o["val"]
+        p = op_place(o)
+        if p and not p["pr"]:
+            ds = b.defs().get(p["l"], [])
+            if len(ds) == 1 and ds[0][1] != "term" and ds[0][2]["rv"]["k"] == "use" and ds[0][2]["rv"]["op"].get("val") is not None:
+                return ds[0][2]["rv"]["op"]["val"]
+        return None
+    for bi, si, s in b.stmts():
+        if s["k"] == "assign" and s["rv"]["k"] == "bin" and s["rv"]["op"] in ("Eq", "Ne", "Ge", "Gt", "Le", "Lt"):
+            cl, cr = const_of(s["rv"]["l"]), const_of(s["rv"]["r"])
+            if (cl is None) == (cr is None):
+                continue
+            other = s["rv"]["r"] if cl is not None else s["rv"]["l"]
+            p = op_place(other)
+            if not p:
+                continue
+            fields, _d, _c, callees = fln.slice_reads(p["l"], through_calls=("Vec::as_slice", "Deref::deref", "Vec::len", "slice::len"))
+            if any(f == "terms" for _o, f in fields) and any(b.dominates(bi, e) for e in ext):
+                tests.append((bi, si, s["rv"]["op"], cl if cl is not None else cr))
+    eq1 = [t for t in tests if t[2] == "Eq" and t[3] == 1]
+    ok = False
+    for bi, si, op, val in eq1:
+        if all(explore(b, [bi], want="target", targets=[e], force={(bi, si): 0}) is None for e in ext):
+            ok = True
+    ctx.check(ok, R, b.key + "|sole-term", "the splice is unreachable unless chain.terms.len() == 1",
+              "strip_sequence lifts a block that is not the sole term of its chain (length tests found: %s)" % [(t[2], t[3]) for t in tests], b.loc(ext[0]))
+
+
 def run(ctx):
     r1_placeholders_patched(ctx)
+    r2_branch_reset(ctx)
+    r3_lift_only_sole_term(ctx)
     ctx.note("NOT decided: stack offsets (Pick/Rotate), local-slot alignment (nil fill, Reset), branch ordering, instruction semantics — the values programs compute are out of reach of a static analysis of the compiler's source")
     return (
         "Decides ONE structural necessary condition of C02: every placeholder jump planted by the code generator is pointed at its join on every "
